@@ -156,7 +156,9 @@ impl Set {
         [Set::Err, Set::Empty, Set::Rej, Set::NoMeta, Set::P1, Set::P2, Set::P12, Set::P123, Set::Big].into_iter().find(|x| x.name() == s)
     }
 }
-pub const PROFILES: [&str; 4] = ["far", "soon", "near", "expired"];
+/// "same" = un-renewed: the path comes back with the expiry it had the last time a lookup returned it
+/// (first appearance: like "soon").
+pub const PROFILES: [&str; 5] = ["far", "soon", "near", "expired", "same"];
 
 /// One scripted lookup outcome. `prof` is the expiry profile of p1 in the result (all other paths
 /// are "far"); `tie` selects which of p1/p2 the real code ranks first when both arrive as new,
@@ -194,13 +196,14 @@ impl Out {
 }
 
 /// Expiry (absolute) of universe path `id` in a lookup answered at `t`.
-pub fn expiry_of(o: Out, id: usize, t: u32, pr: &Profiles) -> u32 {
+pub fn expiry_of(o: Out, id: usize, t: u32, pr: &Profiles, last_returned: Option<u32>) -> u32 {
     if id == 0 {
         match o.prof {
             0 => t + pr.far,
             1 => t + pr.soon,
             2 => t + pr.near,
-            _ => t - 1,
+            3 => t - 1,
+            _ => last_returned.unwrap_or(t + pr.soon),
         }
     } else {
         t + pr.far
@@ -223,6 +226,9 @@ pub fn alphabet() -> Vec<Out> {
         for prof in 0..4 {
             v.push(Out { set, prof, tie: 0 });
         }
+    }
+    for set in [Set::P1, Set::P12] {
+        v.push(Out { set, prof: 4, tie: 0 });
     }
     v
 }
